@@ -254,6 +254,26 @@ fn load_sources(thorough: bool) -> Vec<Source> {
         let d = tables::minimal_font(8, &[], &[(otmodel::tag(b"cmap"), tables::cmap_table(&[(3, 4, sub)]))]);
         v.push(Source { name: "synthetic/big5-source-with-hkscs-and-plane-2-codes".into(), data: d, num_glyphs: 8, small: true, light: false });
     }
+    // (b3d) format 4 segment with idRangeOffset != 0 AND idDelta != 0 whose glyphIdArray has a zero entry (a hole: the
+    // character is unmapped, idDelta is not added to 0) - with the glyph numbered idDelta present, so that a hole read as
+    // "glyph idDelta" would show up as a mapping in the subset
+    {
+        use otmodel::cmapenc::{self, Seg4, Term4};
+        use otmodel::tables;
+        let segs = [Seg4::Array { start: 0x41, end: 0x45, delta: 2, entries: vec![1, 0, 3, 0, 2] }, Seg4::Delta { start: 0x61, end: 0x62, delta: (5i32 - 0x61) as i16 }];
+        let (sub, _) = cmapenc::fmt4(&segs, Term4::Standard);
+        let d = tables::minimal_font(8, &[], &[(otmodel::tag(b"cmap"), tables::cmap_table(&[(3, 1, sub)]))]);
+        v.push(Source { name: "synthetic/cmap4-glyphIdArray-holes-under-a-non-zero-idDelta".into(), data: d, num_glyphs: 8, small: true, light: false });
+    }
+    // (b3e) characters inside and outside Mac Roman whose HIGHEST character is a Mac Roman one (U+FB01, U+2026 and U+25CA are
+    // in Mac Roman; U+0142, U+0416 and U+2030+1 are not): the plane a subset cmap needs is decided by every kept
+    // character, not by the last one
+    {
+        use otmodel::tables;
+        let map: Vec<(u32, u16)> = vec![(0x41, 1), (0x142, 2), (0x416, 3), (0x2026, 4), (0x2031, 5), (0x25CA, 6), (0xFB01, 7)];
+        let d = tables::minimal_font(8, &map, &[]);
+        v.push(Source { name: "synthetic/characters-outside-mac-roman-below-a-mac-roman-one".into(), data: d, num_glyphs: 8, small: true, light: false });
+    }
     // (b4) a source cmap with one malformed entry in front of valid ones (format 4 segment whose idRangeOffset points far
     // outside the subtable): a subset must either be refused or map every other retained character correctly
     {
@@ -798,6 +818,18 @@ fn source_selected_map(src_data: &[u8]) -> Option<(String, BTreeMap<u32, u16>)> 
     read::cmap_mappings(&cmap[off..]).map(|m| (enc, m))
 }
 
+/// The sfnt a WOFF2 fixture was made from (same glyph order), if the repository has it.
+fn woff2_twin(name: &str) -> Option<&'static [u8]> {
+    static TWINS: std::sync::OnceLock<Vec<(&'static str, Vec<u8>)>> = std::sync::OnceLock::new();
+    let t = TWINS.get_or_init(|| {
+        [("fonts/woff2/test-font.woff2", "fonts/opentype/test-font.ttf"), ("fonts/woff2/SFNT-TTF-Composite.woff2", "fonts/opentype/SFNT-TTF-Composite.ttf")]
+            .iter()
+            .filter_map(|(w, s)| std::fs::read(format!("/repo/tests/{}", s)).ok().filter(|d| !d.is_empty()).map(|d| (*w, d)))
+            .collect()
+    });
+    t.iter().find(|(w, _)| *w == name).map(|(_, d)| &d[..])
+}
+
 fn check_case(ctx: &Ctx, which: Which, case: &Case<'_>, src_map: &Option<(String, BTreeMap<u32, u16>)>) -> bool {
     let id = which.id();
     let fd = ReadScope::new(&case.src.data).read::<FontData<'_>>().expect("machinery: source");
@@ -819,13 +851,21 @@ fn check_case(ctx: &Ctx, which: Which, case: &Case<'_>, src_map: &Option<(String
     let list = case.list;
     match which {
         Which::C07 => {
-            // outlines + metrics of retained glyphs
-            let src_basics = read_basics(&provider);
+            // outlines + metrics of retained glyphs. A WOFF2 fixture is judged against the sfnt it was made from: the table
+            // provider of a WOFF2 file re-serialises glyf, loca and hmtx itself, so reading the source side through it would
+            // let a defect of that writer cancel out on both sides.
+            let twin_fd = woff2_twin(&case.src.name).and_then(|d| ReadScope::new(d).read::<FontData<'_>>().ok());
+            let twin_provider = twin_fd.as_ref().and_then(|f| f.table_provider(0).ok());
+            let provider = match &twin_provider {
+                Some(t) => t,
+                None => &provider,
+            };
+            let src_basics = read_basics(provider);
             if bare_cff {
                 let ind = crate::c18::IndependentCff::new(&out);
                 independent_cff_tables(ctx, case, &ind, &src_basics, list);
                 for (new, &old) in list.iter().enumerate() {
-                    let a = guard(|| outline_of(&provider, old));
+                    let a = guard(|| outline_of(provider, old));
                     let b = guard(|| bare_cff_outline(&out, new as u16));
                     independent_cff_seam(ctx, case, &ind, old, new as u16, &a);
                     cmp_outline(ctx, id, case, old, new as u16, a, b);
@@ -849,7 +889,7 @@ fn check_case(ctx: &Ctx, which: Which, case: &Case<'_>, src_map: &Option<(String
                     match (sm.get(old as usize), om.get(new)) {
                         (Some(a), Some(b)) if a == b => {}
                         (a, b) => {
-                            let nhm = src_num_h_metrics(&provider).unwrap_or(0);
+                            let nhm = src_num_h_metrics(provider).unwrap_or(0);
                             let key = if a.map(|x| x.0) == b.map(|x| x.0) { if old >= nhm { "C07:lsb-differs-for-glyph-beyond-numberOfHMetrics" } else { "C07:lsb-differs" } } else { "C07:advance-differs" };
                             ctx.violation(key, || json!({"case": case.describe(), "old_id": old, "new_id": new, "source_(advance,lsb)": a, "output_(advance,lsb)": b, "source_numberOfHMetrics": nhm}));
                         }
@@ -859,7 +899,7 @@ fn check_case(ctx: &Ctx, which: Which, case: &Case<'_>, src_map: &Option<(String
                 // (source component, output component) are read off the composite records, position by position, and
                 // followed transitively; their metrics belong to the retained composite's rendering just as its outline
                 let mut pairs: Vec<(u16, u16)> = Vec::new();
-                if let (Some(sc), Some(oc)) = (glyph_components(&provider), glyph_components(&op)) {
+                if let (Some(sc), Some(oc)) = (glyph_components(provider), glyph_components(&op)) {
                     let mut todo: Vec<(u16, u16)> = list.iter().enumerate().map(|(n, &o)| (o, n as u16)).collect();
                     let mut seen: std::collections::BTreeSet<(u16, u16)> = todo.iter().copied().collect();
                     while let Some((o, n)) = todo.pop() {
@@ -892,7 +932,7 @@ fn check_case(ctx: &Ctx, which: Which, case: &Case<'_>, src_map: &Option<(String
                 independent_cff_tables(ctx, case, ind, &src_basics, list);
             }
             for (new, &old) in list.iter().enumerate() {
-                let a = guard(|| outline_of(&provider, old));
+                let a = guard(|| outline_of(provider, old));
                 let b = guard(|| outline_of(&op, new as u16));
                 if let Some(ind) = &ind {
                     independent_cff_seam(ctx, case, ind, old, new as u16, &a);
